@@ -146,6 +146,13 @@ func verifyFuncMode(p *Program, fc *FuncContract, prop string, unroll int) (u *U
 	exit := x.merge(envs)
 	for i := len(cx.defers) - 1; i >= 0; i-- {
 		d := cx.defers[i]
+		if d.call != nil {
+			on := x.branch(exit, d.pc)
+			off := x.branch(exit, Not(d.pc))
+			x.evalCall(d.call, on)
+			exit = x.merge([]*Env{on, off})
+			continue
+		}
 		if m := x.eval(d.expr, exit); w.IsMap(m.Sort) {
 			dom, _ := w.Field(m, "dom")
 			val, _ := w.Field(m, "val")
